@@ -141,6 +141,41 @@ static void t_tok(const char *s, const char *delims) {
         l->free(l); }
     hm_free(cs); hm_free(cd); TICK("qstrtokenizer");
 }
+/* one qstrtok step checked exactly (only issued while the offset is inside the string, where the result does not depend on how a trailing
+ * delimiter is treated): token = bytes up to the next delimiter, stop = that delimiter or 0, offset behind it */
+static bool tok_step(char *work, const char *orig, size_t n, const char *delims_ref, const char *delims_arg, int *off, const char *what) {
+    int p = *off; size_t q = (size_t)p; while (q < n && !strchr(delims_ref, orig[q])) q++;
+    char stop = 'X'; char *t = qstrtok(work, delims_arg, &stop, off); TICK("qstrtok");
+    size_t l = t ? strlen(t) : 0;
+    if (!t || t != work + p || l != q - (size_t)p || memcmp(t, orig + p, l) || stop != (q < n ? orig[q] : 0) || *off != (int)(q < n ? q + 1 : n)) {
+        bad("qstrtok", what, orig, "delims=%s from offset %d: token %s stop 0x%02x new offset %d; expected %s stop 0x%02x offset %zu", vf_hex(delims_ref, strlen(delims_ref)), p,
+            t ? vf_hex(t, l) : "NULL", (unsigned char)stop, *off, vf_hex(orig + p, q - (size_t)p), (unsigned char)(q < n ? orig[q] : 0), q < n ? q + 1 : n);
+        return false; }
+    return true;
+}
+/* the delimiter argument lives in ONE mutable buffer whose contents change between calls (a strtok-style change of the delimiter set in the
+ * middle of a string; two strings tokenised alternately with their own delimiter sets written into the same scratch buffer): the result of a
+ * call depends on the bytes of its arguments only, never on an earlier call that happened to pass the same addresses */
+static void t_tok_shared(const char *s, const char *d1, const char *d2) {
+    static char DB[16]; static char PREV[64] = "b;a, a";
+    size_t n = strlen(s), pn = strlen(PREV);
+    if (n > 0) {   /* (1) delimiter set changes after the first field */
+        char *w = xs(s); int off = 0; int guard = 0; bool ok = true;
+        strcpy(DB, d1); ok = tok_step(w, s, n, d1, DB, &off, "shared-delimiter-buffer");
+        strcpy(DB, d2); while (ok && (size_t)off < n && ++guard < 70) ok = tok_step(w, s, n, d2, DB, &off, "shared-delimiter-buffer");
+        hm_free(w);
+    }
+    if (n > 0 && pn > 0) {   /* (2) two strings advanced alternately */
+        char *w1 = xs(s), *w2 = xs(PREV); int o1 = 0, o2 = 0, guard = 0; bool ok = true;
+        while (ok && ((size_t)o1 < n || (size_t)o2 < pn) && ++guard < 140) {
+            if ((size_t)o1 < n) { strcpy(DB, d1); ok = tok_step(w1, s, n, d1, DB, &o1, "alternating-strings"); }
+            if (ok && (size_t)o2 < pn) { strcpy(DB, d2); ok = tok_step(w2, PREV, pn, d2, DB, &o2, "alternating-strings"); }
+        }
+        hm_free(w1); hm_free(w2);
+    }
+    if (n < sizeof PREV) strcpy(PREV, s);
+    vf_count("tokenizer_shared_buffer_scenarios", 1);
+}
 /* ---- replace -------------------------------------------------------------------------------------------- */
 static void t_replace(const char *src, const char *tok, const char *word) {
     size_t n = strlen(src), tl = strlen(tok), wl = strlen(word);
@@ -231,7 +266,8 @@ static long enumerate(const char *alpha, int maxlen, strfn f, long base, const c
     return idx;
 }
 static const char *CUR_DELIMS;
-static void tok_adapter(const char *s) { t_tok(s, CUR_DELIMS); }
+static const char *OTHER_DELIMS;
+static void tok_adapter(const char *s) { t_tok(s, CUR_DELIMS); t_tok_shared(s, CUR_DELIMS, OTHER_DELIMS); }
 
 int main(int argc, char **argv) {
     vf_init(argc, argv, "h_string");
@@ -244,7 +280,7 @@ int main(int argc, char **argv) {
     n = enumerate("a\r\n b", L > 6 ? 6 : L, t_gets, base, "gets"); base += 100000000;
     n = enumerate("a:\"B", L > 6 ? 6 : L, t_between, base, "between"); base += 100000000;
     static const char *DSETS[] = {",", ",;", ",; ", ";"};
-    for (int d = 0; d < 4; d++) { CUR_DELIMS = DSETS[d]; n = enumerate("a,; b", L > 6 ? 6 : L, tok_adapter, base, DSETS[d]); base += 100000000; }
+    for (int d = 0; d < 4; d++) { CUR_DELIMS = DSETS[d]; OTHER_DELIMS = DSETS[(d + 1 + (d & 1)) % 4]; n = enumerate("a,; b", L > 6 ? 6 : L, tok_adapter, base, DSETS[d]); base += 100000000; }
     /* replace: all (src, token, word) triples over {a,b,:} up to lengths (ls, 3 or 2, 3 or 2) */
     { int ls = L >= 7 ? 5 : 4, lt = L >= 7 ? 3 : 2, lw = 3; const char *A = "ab:"; char src[8], tok[8], word[8]; long idx = 0;   /* words up to 3: a word longer than a 2-byte token exercises the size bound of string mode */
       for (int l1 = 0; l1 <= ls; l1++) { long t1 = 1; for (int i = 0; i < l1; i++) t1 *= 3;
